@@ -66,6 +66,9 @@ def rStep (c : RCfg) (s : RState) (ev : REv) : RState × List AckObs :=
             flushAck c s1
           else (s1, [])
         | (w', _) => ({ s with win := w', status := .failed }, [])
+      else if n = s.bn && !s.win.isEmpty then
+        -- a duplicate of the block just buffered (its acknowledgement is still to come): ignored
+        (s, [])
       else
         -- out of sequence: flush what is pending and repeat the last acknowledgement
         flushAck c s
